@@ -289,6 +289,33 @@ func pair(r *ev.Run, sg sysgen, a, b string, extra []string, rng *rand.Rand) {
 		}
 	}
 	r.Count("empty_span_set_texts:"+sg.name, int64(len(withEmpty)))
+	// The all-empty text united with the other operand is that operand.
+	var emptyU []*semver.Set
+	var emptyUwant []*semver.Constraint
+	for k, o := range []*semver.Constraint{aO, bO} {
+		other := []*semver.Constraint{bO, aO}[k]
+		if o.Set().String() != "{<empty>}" {
+			continue
+		}
+		e, err1 := sg.sys.ParseSetConstraint("{<empty>,<empty>}")
+		p, err2 := sg.sys.ParseSetConstraint(other.Set().String())
+		if err1 != nil || err2 != nil {
+			continue
+		}
+		x := e.Set()
+		if x.Union(p.Set()) == nil {
+			emptyU = append(emptyU, &x)
+			// (Compared with the operand as parsed from the same text: a
+			// 0.0.0-0 bound written in set text is a user-written minimum.)
+			if again, err := sg.sys.ParseSetConstraint(other.Set().String()); err == nil {
+				emptyUwant = append(emptyUwant, again)
+			} else {
+				emptyU = emptyU[:len(emptyU)-1]
+				continue
+			}
+			r.Count("all_empty_text_unions:"+sg.name, 1)
+		}
+	}
 	onlyOne, both := false, false
 	done := map[string]bool{}
 	for _, vs := range cands {
@@ -314,6 +341,11 @@ func pair(r *ev.Run, sg sysgen, a, b string, extra []string, rng *rand.Rand) {
 		for _, rc := range recvs {
 			if rc.Set().MatchVersion(v) != ma || rc.MatchVersionPrerelease(v) != pa {
 				rep("receiver-source-modified", fmt.Sprintf("v=%s: the constraint A, whose Set() value was the receiver of a Union/Intersect with B, now matches %v/%v (it matched %v/%v); it prints %s", vs, rc.Set().MatchVersion(v), rc.MatchVersionPrerelease(v), ma, pa, rc.Set().String()))
+			}
+		}
+		for k, eu := range emptyU {
+			if m, want := eu.MatchVersion(v), emptyUwant[k].Set().MatchVersion(v); m != want {
+				rep("set-text:empty-union", fmt.Sprintf("v=%s: {<empty>,<empty>} united with %s matches %v, the operand alone %v; the union prints %s", vs, emptyUwant[k].Set().String(), m, want, eu.String()))
 			}
 		}
 		for k, we := range withEmpty {
@@ -427,8 +459,18 @@ func setTextOperands(sg sysgen, c *semver.Constraint) (sorted, rev *semver.Const
 // that do not parse are left out.
 func emptySpanVariants(sg sysgen, c *semver.Constraint) []*semver.Constraint {
 	txt := c.Set().String()
-	if !strings.HasPrefix(txt, "{") || !strings.HasSuffix(txt, "}") || txt == "{<empty>}" || txt == "{}" {
+	if !strings.HasPrefix(txt, "{") || !strings.HasSuffix(txt, "}") || txt == "{}" {
 		return nil
+	}
+	if txt == "{<empty>}" {
+		// The empty set written with its span twice and three times.
+		var out []*semver.Constraint
+		for _, t := range []string{"{<empty>,<empty>}", "{<empty>,<empty>,<empty>}"} {
+			if n, err := sg.sys.ParseSetConstraint(t); err == nil {
+				out = append(out, n)
+			}
+		}
+		return out
 	}
 	spans := strings.Split(txt[1:len(txt)-1], ",")
 	texts := []string{"{<empty>," + txt[1:], txt[:len(txt)-1] + ",<empty>}"}
